@@ -3,7 +3,7 @@ import json
 import os
 import subprocess
 
-from .. import common, uiparse
+from .. import regen, common, uiparse
 from ..svgcolors import SVG_COLORS
 
 HEX = "0123456789abcdef"
@@ -273,8 +273,14 @@ def run(tier, seed, replay=None):
         "reference decoder and SVG 1.1 keyword table of /verif (qv/svgcolors.py, cross-checked against two unrelated tables)",
         "the property text defines the accepted forms: #rgb #argb #rrggbb #aarrggbb, SVG keywords case-insensitively, transparent",
     ]
+    # the colour on disk is the colour of the CURRENT source (an edit that keeps the length of the form: permuted channels)
+    _w = regen.HEAD + "QColorDialog {\n currentColor: \"%s\"\n QGraphicsView { backgroundBrush: \"%s\" }\n QLabel { palette.window: \"%s\" }\n}\n"
+    n_hist = 0 if replay else regen.regenerated_equals_fresh(v, "c19hist", [
+        (_w % (a, a, a), _w % (b, b, b)) for a, b in (("#ff0000", "#00ff00"), ("red", "blue"), ("#123", "#321"), ("#80ff0000", "#ff800000"),
+                                                     ("lime", "blue"), ("#0000ff", "blue"), ("#102030", "#302010"))
+    ], "stale-colour-after-edit", "a colour edited")
     return v.finish(
-        evaluations=len(cases) + len(picks),
+        histories_on_disk=n_hist, evaluations=len(cases) + len(picks),
         distinct_nontrivial=len(distinct),
         rule="every 3- and 4-digit lower-case hex string, sampled mixed-case / 6- / 8-digit ones, every SVG keyword in 5 "
              "letter cases, and near-miss / junk strings; distinct = distinct (case class, decoded channel tuple or rejection)",
